@@ -20,6 +20,13 @@ SCRATCH_ROOT = os.environ.get('VERIF_SCRATCH_ROOT', '/var/tmp/uflow-verif')
 CACHE = os.environ.get('VERIF_CACHE', '/var/tmp/uflow-verif-cache')
 KANI_HOME = os.path.expanduser('~/.kani/kani-0.68.0')
 NCPU = int(os.environ.get('VERIF_JOBS', str(min(8, os.cpu_count() or 4))))
+# CBMC's symbolic execution propagates constants through heap buffers (Vec/VecDeque/Rc allocations are byte arrays)
+# only when the array is split into per-element symbols; the default limit of 64 bytes leaves every heap read
+# symbolic even for concrete inputs.  DESIGN.md section 10.8.
+DEFAULT_FS = os.environ.get('VERIF_FS', '')
+# Runs against another tree (seeded changes, pre-fix trees) never touch /verif/evidence, /verif/replays or the
+# log directory of the registered checks: everything goes under logs/alt-<tag>/.
+ALT = os.environ.get('VERIF_TAG') or (None if REPO == '/repo' else re.sub(r'[^A-Za-z0-9]+', '_', REPO).strip('_'))
 MEM_LIMIT_GB = int(os.environ.get('VERIF_MEM_GB', '28'))
 
 
@@ -60,6 +67,7 @@ class Harness:
         self.canary = False
         self.ignore = None
         self.unwindset = None
+        self.cbmc = ''       # extra CBMC arguments ('+' separated), e.g. --max-field-sensitivity-array-size+512
         self.expect = 'pass'
 
     @property
@@ -139,6 +147,8 @@ def _set(h, k, v):
         h.canary = v not in ('0', 'false')
     elif k == 'args':
         h.args = v.replace('+', ' ')
+    elif k == 'cbmc':
+        h.cbmc = v.replace('+', ' ')
     else:
         setattr(h, k, v)
 
@@ -258,9 +268,14 @@ def kani_group(scratch, hs, jobs, logdir, tag):
     for h in hs:
         cmd += ['--harness', h.full]
     extra = hs[0].args.split()
+    cb = hs[0].cbmc.split()
+    if '--max-field-sensitivity-array-size' not in cb and DEFAULT_FS:
+        cb = ['--max-field-sensitivity-array-size', DEFAULT_FS] + cb
     if hs[0].unwindset:
         ids = resolve_unwindset(scratch, hs, logdir, tag)
-        extra = extra + ['--cbmc-args', '--unwindset', ','.join(ids)]
+        cb = cb + ['--unwindset', ','.join(ids)]
+    if cb:
+        extra = extra + ['--cbmc-args'] + cb
         for h in hs:
             h.args_resolved = list(extra)
     cbmc_extra = []
@@ -525,10 +540,10 @@ def run_check(prop, tier, seed, only=None, write_evidence=True):
     # seed: only permutes the order in which harnesses are scheduled
     sel.sort(key=lambda h: hashlib.sha256(('%d:%s' % (seed, h.name)).encode()).hexdigest())
     sel.sort(key=lambda h: -h.timeout)
-    logdir = os.path.join(VERIF, 'logs', '%s-%s' % (prop, tier))
+    logdir = os.path.join(VERIF, 'logs', '%s-%s' % (prop, tier)) if not ALT else os.path.join(VERIF, 'logs', 'alt-' + ALT, '%s-%s' % (prop, tier))
     shutil.rmtree(logdir, ignore_errors=True)
     os.makedirs(logdir, exist_ok=True)
-    scratch = Scratch('%s-%s' % (prop, tier))
+    scratch = Scratch('%s-%s%s' % (prop, tier, ('-' + ALT) if ALT else ''))
     known = load_known()
     verdicts = {}
     results = {}
@@ -541,7 +556,7 @@ def run_check(prop, tier, seed, only=None, write_evidence=True):
         scratch.create(files)
         groups = {}
         for h in sel:
-            groups.setdefault((h.group, h.args, h.unwindset or ''), []).append(h)
+            groups.setdefault((h.group, h.args, (h.unwindset or '') + '|' + h.cbmc), []).append(h)
         first = True
         for gi, ((gname, gargs, _uw), hs) in enumerate(sorted(groups.items())):
             tag = '%d-%s' % (gi, re.sub(r'[^A-Za-z0-9]+', '_', gname))
@@ -564,7 +579,9 @@ def run_check(prop, tier, seed, only=None, write_evidence=True):
                     elif v == 'pass':
                         v, notes = 'inconclusive', ['canary twin passed: harness group is vacuous']
                 verdicts[h.name] = (v, failing, notes)
-                log('  %-44s %-12s %6.1fs %s' % (h.name, v, r['duration_ms'] / 1000.0, '; '.join(notes)))
+                st_ = r.get('stats') or {}
+                log('  %-44s %-12s %6.1fs symex=%ss solve=%ss vcc=%s %s' % (h.name, v, r['duration_ms'] / 1000.0, st_.get('runtime_symex_s', '?'),
+                    st_.get('runtime_decision_procedure_s', '?'), st_.get('vccs_remaining', st_.get('vccs_generated', '?')), '; '.join(notes)))
         # ---- failures: known / replay / violation
         for h in sel:
             v, failing, notes = verdicts[h.name]
@@ -582,7 +599,7 @@ def run_check(prop, tier, seed, only=None, write_evidence=True):
             if not new:
                 continue
             # replay before reporting
-            rep_dir = os.path.join(VERIF, 'replays', prop)
+            rep_dir = os.path.join(VERIF, 'replays', prop) if not ALT else os.path.join(logdir, 'replays')
             os.makedirs(rep_dir, exist_ok=True)
             rep_path = os.path.join(rep_dir, h.name + '.rs')
             replay_info = {'mode': h.replay}
@@ -709,8 +726,9 @@ def write_ev(prop, tier, seed, sel, results, verdicts, known_hits, violations, i
         'wall_s': round(wall, 1),
         'violations': len(violations),
     }
-    os.makedirs(os.path.join(VERIF, 'evidence'), exist_ok=True)
-    with open(os.path.join(VERIF, 'evidence', prop + '.json'), 'w') as f:
+    evdir = os.path.join(VERIF, 'evidence') if not ALT else os.path.join(VERIF, 'logs', 'alt-' + ALT, 'evidence')
+    os.makedirs(evdir, exist_ok=True)
+    with open(os.path.join(evdir, prop + '.json'), 'w') as f:
         json.dump(ev, f, indent=1)
 
 
